@@ -1023,6 +1023,17 @@ class Ops:
         if not hasattr(self, "loop_stmts"):
             self.loop_stmts = {}
         self.loop_stmts[lid] = st
+        if not hasattr(self, "open_loops"):
+            self.open_loops = []
+        self.open_loops.append((lid, info))
+
+    def loop_trip(self):
+        """Closed form of the number of iterations of the innermost open loop (`for _ in range(B)`: B), or None."""
+        if not getattr(self, "open_loops", None):
+            return None
+        src = self.open_loops[-1][1].get("src")
+        ln = getattr(src, "length", None)
+        return ln.poly if isinstance(ln, TV) and ln.poly is not None else None
 
     def comp_enter(self, info):
         pass
@@ -1045,6 +1056,8 @@ class Ops:
 
     def loop_exit(self, env: Env, lid, info, st):
         """Values still depending on the generic index of a finished loop are order-dependent."""
+        if getattr(self, "open_loops", None) and self.open_loops[-1][0] == lid:
+            self.open_loops.pop()
         e = env
         while e is not None:
             for k, v in list(e.vars.items()):
@@ -1083,7 +1096,19 @@ class Ops:
                     out = self.concat_lists(out, x, n) if isinstance(out, ListV) and isinstance(x, ListV) else Unk("mixed comprehension")
                 return out
         if kind == "dict":
-            return DictV(items=tuple(flat))
+            # a key met again replaces the value stored under it (the position of the first occurrence is kept): keys that are one object,
+            # or equal constants
+            ident = lambda k: ("obj", k.oid) if isinstance(k, ObjV) else (("const", type(k.v).__name__, k.v) if isinstance(k, Const) and isinstance(k.v, (int, str, bool, float, type(None))) else ("id", id(k)))
+            out_, pos_ = [], {}
+            for kv in flat:
+                if isinstance(kv, tuple) and len(kv) == 2:
+                    i_ = ident(kv[0])
+                    if i_ in pos_:
+                        out_[pos_[i_]] = (out_[pos_[i_]][0], kv[1])
+                        continue
+                    pos_[i_] = len(out_)
+                out_.append(kv)
+            return DictV(items=tuple(out_))
         return ListV(items=tuple(flat), kind="list")
 
     def comp_abstract(self, r, kind, info, lid, filtered, n, env):
